@@ -641,6 +641,9 @@ def check(ctx):
     check_freshness(ctx)
     check_pack_purity(ctx)
     check_lists_only_iterated(ctx, funcs)
+    # the generated module is shared by same-named classes: nothing of one class lives in it
+    from .c15 import check_module_namespace
+    check_module_namespace(ctx)
     ctx.floor('run-time functions analysed', len(funcs), 60)
     ctx.floor('write effects classified', ctx.units.get('write_effects', 0), 40)
     ctx.floor('values stored by init/unpack', ctx.units.get('stored_values', 0), 20)
